@@ -49,6 +49,9 @@ type C10Case struct {
 	// CutAfter k > 0 (tcp): every write of the client ends k bytes after a packet boundary
 	// (1..3: inside the next length prefix), with a pause so that the server reads them apart
 	CutAfter int `json:"cut_after,omitempty"`
+	// ReadTimeoutMs > 0 (tcp): the server adapter has that <readtimeout>, and the client
+	// pauses 250 ms - longer than it - after its first write, which ends inside a request
+	ReadTimeoutMs int `json:"read_timeout_ms,omitempty"`
 }
 
 const (
@@ -79,6 +82,12 @@ func (e *Env) DrawC10(rt *rapid.T) C10Case {
 	c.HalfClose = rapid.IntRange(0, 3).Draw(rt, "halfClose") == 0
 	if rapid.IntRange(0, 3).Draw(rt, "cutAfter") == 0 {
 		c.CutAfter = rapid.SampledFrom([]int{1, 2, 3, 4, 5}).Draw(rt, "cutAfterK")
+	}
+	if rapid.IntRange(0, 5).Draw(rt, "readTimeout") == 0 {
+		c.ReadTimeoutMs = 80
+		if c.CutAfter == 0 {
+			c.CutAfter = rapid.SampledFrom([]int{1, 3, 4, 9, 20}).Draw(rt, "cutAfterRT")
+		}
 	}
 	maxReq := 24
 	switch c.Scenario {
@@ -227,6 +236,11 @@ func (e *Env) DrawC10(rt *rapid.T) C10Case {
 			}
 		}
 	}
+	// the pause of the read-timeout dimension would defeat the timing the other scenarios
+	// are built on
+	if c.Scenario != "mixed" || c.Proto != "tcp" || (len(c.Reqs) > 0 && c.Reqs[0].Outcome.SleepMs == 800) {
+		c.ReadTimeoutMs = 0
+	}
 	return c
 }
 
@@ -283,6 +297,9 @@ func (e *Env) c10Model(c C10Case) []c10Expect {
 
 func (e *Env) runC10Once(c C10Case) *stat.Failure {
 	opts := ServerOpts{Proto: c.Proto, MaxInvoke: c.MaxInvoke, HandleTimeout: time.Duration(c.HandleTimeout) * time.Millisecond}
+	if c.Proto != "udp" {
+		opts.ReadTimeout = time.Duration(c.ReadTimeoutMs) * time.Millisecond
+	}
 	srv, proxy, err := e.Endpoint(c.Iface, c.WithContext, opts)
 	if err != nil {
 		return stat.Failf("harness-failure", "server setup: %v", err)
@@ -386,7 +403,12 @@ func (e *Env) runC10Once(c C10Case) *stat.Failure {
 				for _, l := range pktLens[i][1 : len(pktLens[i])-1] {
 					chunks = append(chunks, l)
 				}
-				err = conns[i].WritePaced(s, chunks, 400*time.Microsecond)
+				if c.ReadTimeoutMs > 0 {
+					// one long pause inside a request, then the rest at once
+					err = conns[i].WritePaced(s, chunks[:1], 250*time.Millisecond)
+				} else {
+					err = conns[i].WritePaced(s, chunks, 400*time.Microsecond)
+				}
 			} else {
 				err = conns[i].Write(s, c.Chunks)
 			}
